@@ -59,6 +59,7 @@ func main() {
 		os.Exit(2)
 	}
 	ctx := &rules.Ctx{P: p, Tier: *tier, Oracle: *oracle}
+	rules.InitRoles(ctx)
 	if *genEvo {
 		if err := rules.GenEvolution(ctx); err != nil {
 			fmt.Println(err)
